@@ -220,13 +220,10 @@ func (h *Handler) HandleReadFile(ctx *Context, limit uint32, offset uint64, wr s
 		return fmt.Errorf("no file opened")
 	}
 
-	if _, err := ctx.State.ROFile.Seek(int64(offset), io.SeekStart); err != nil {
-		return fmt.Errorf("seek failed: %w", err)
-	}
-
 	var buf bytes.Buffer
 
-	n, err := buf.ReadFrom(io.LimitReader(ctx.State.ROFile, int64(limit)))
+	// read by position: offset may be far beyond the end of file (even beyond what filesystem can seek to), it's just an empty read
+	n, err := buf.ReadFrom(io.NewSectionReader(ctx.State.ROFile, int64(offset), int64(limit)))
 	if err != nil {
 		return fmt.Errorf("read failed: %w", err)
 	}
@@ -245,11 +242,7 @@ func (h *Handler) HandleReadFileCritical(ctx *Context, limit uint32, offset uint
 		return fmt.Errorf("no file opened")
 	}
 
-	if _, err := ctx.State.ROFile.Seek(int64(offset), io.SeekStart); err != nil {
-		return fmt.Errorf("seek failed: %w", err)
-	}
-
-	_, err := h.Copier.CopyN(w, ctx.State.ROFile, int64(limit))
+	_, err := h.Copier.CopyN(w, io.NewSectionReader(ctx.State.ROFile, int64(offset), int64(limit)), int64(limit))
 	return err
 }
 
